@@ -72,6 +72,8 @@ type task struct {
 	started  bool
 	blocked  bool
 	waitObj  uintptr // address of the object the task is parked on (0: none)
+	waitDir  int     // channel operations: direction the task is parked for
+	rv       bool    // woken for an unbuffered rendezvous
 	waitKids bool    // parked until all of its children are done
 	parent   int32
 	kids     int32 // live children
